@@ -6994,11 +6994,18 @@ class TensorDictBase(MutableMapping):
                     vals = dict(zip(keys, vals))
                     vals = [vals[k] for k in new_keys]
                 _foreach_copy_(vals, other_val, non_blocking=non_blocking)
-                return self
+                tensors_copied = True
+            else:
+                tensors_copied = False
             named = True
 
             def inplace_update(name, source, dest):
                 if source is None:
+                    return None
+                if tensors_copied:
+                    # the non-tensor leaves are not in the lists copied above
+                    if dest is not None and is_non_tensor(source):
+                        dest.copy_(source, non_blocking=non_blocking)
                     return None
                 if dest is None:
                     raise KeyError(
